@@ -38,7 +38,7 @@ func runC11(c *Ctx) {
 		"C11.f Characters builds every Character from a cluster boundary computed by uniseg (or a constant) with that cluster's width",
 		"C11.g text helpers advance the column by the character width between two placed cells (or start a new row)",
 		"C11.h Print/Wrap start a new row exactly when the advanced column reaches the window width",
-		"C11.k Print/Wrap start a new row at column 0 at every line-break cluster, on every path",
+		"C11.k Print/Wrap start a new row at column 0 at every line-break cluster, on every path (a helper in which no branch is recognisably the line-break branch: by the evaluation of C11.o)",
 		"C11.l Window.New links the child to the window it is created from (or an identical copy) with exactly the requested offsets",
 	}
 	c.NotDec = []string{"that uniseg's cluster boundaries and widths are themselves right; exact wrap positions chosen by Wrap (values computed at run time)"}
@@ -48,6 +48,8 @@ func runC11(c *Ctx) {
 	c.expect("C11.d", 2)
 	c.expect("C11.e", 6)
 
+	// local closures in the text helpers are spliced in at their calls first (c11norm.go)
+	c11Normalise(c)
 	pk := c.P.Pkg("vaxis")
 	info := pk.TypesInfo
 	scrObj, _ := pk.Types.Scope().Lookup("screen").(*types.TypeName)
